@@ -38,5 +38,45 @@ def main():
     if not vs:
         print("selftest: trace with a dropped store event was accepted")
         return 1
-    log("selftests passed (altered reply rejected, dropped event rejected)")
+    # (iii) the engine trace specification (spec/WalImplTrace.tla) is bound to the recorded I/O: the pristine recording
+    # shows no drift; one committed metadata field altered, or one recorded call removed, must be noticed
+    job2 = dict(job, id="st2", expand=True, forks=[],
+                steps=job["steps"] + [{"op": "store", "first": 5, "cids": [5, 6, 7, 8], "sz": [2, 2, 2, 2]},
+                                      {"op": "delete", "min": 7, "max": 8}, {"op": "reopen"}])
+    _, io, _ = we.run_jobs([job2], wd, "st2", need_io=True)
+
+    def drift(path):
+        stt = {}
+        we.impl_trace(path, wd, stt)
+        if "impl_trace_error" in stt or "impl_trace_clause_evaluations" not in stt:
+            print("selftest: WalImplTrace did not run:", stt)
+            raise SystemExit(1)
+        return stt.get("impl_drift", 0), stt
+    n0, st0 = drift(io)
+    ev = st0["impl_trace_clause_evaluations"]
+    if n0 or min(ev.values()) == 0:
+        print("selftest: WalImplTrace on a pristine recording: drift %d, clause evaluations %s" % (n0, ev), st0.get("impl_drift_samples"))
+        return 1
+    lines = open(io).read().splitlines()
+    k = max(i for i, l in enumerate(lines) if '"call":"mcommit"' in l and '"bg":true' in l)
+    e = json.loads(lines[k])
+    e["segs"][-2][3] += 1            # the sealed segment's MaxIndex
+    e["segs"][-1][1] += 1            # (keep the list contiguous: the alteration is only visible against the transaction)
+    e["segs"][-1][2] += 1
+    lines[k] = json.dumps(e)
+    badio = os.path.join(wd, "bad.io.ndjson")
+    open(badio, "w").write("\n".join(lines) + "\n")
+    n1, st1 = drift(badio)
+    if not any("ShapeRotate" in x for x in st1.get("impl_drift_kinds", [])):
+        print("selftest: an altered rotation commit was accepted by WalImplTrace", st1.get("impl_drift_kinds"))
+        return 1
+    lines = open(io).read().splitlines()
+    k = max(i for i, l in enumerate(lines) if '"call":"unlink"' in l)
+    del lines[k]
+    open(badio, "w").write("\n".join(lines) + "\n")
+    n2, st2 = drift(badio)
+    if not any("DirExact" in x for x in st2.get("impl_drift_kinds", [])):
+        print("selftest: a recording without one unlink was accepted by WalImplTrace", st2.get("impl_drift_kinds"))
+        return 1
+    log("selftests passed (altered reply rejected, dropped event rejected, altered metadata commit / dropped unlink noticed by WalImplTrace)")
     return 0
